@@ -18,6 +18,7 @@ from __future__ import annotations
 import re
 
 from .. import common, drive, gen, refmodel, xf
+from ..model import Row
 from ..refmodel import MEDIA, base_type, default_language, split_header, texts
 
 PROP = "C08"
@@ -455,6 +456,20 @@ def run_shard(ctx):
             continue
         rng = ctx.rng("case", i)
         form = make_form(rng, i)
+        if i % 9 == 2:
+            # a question whose name carries a declared prefix (a colon in the name, and therefore in every itext id built from it)
+            langs = form.meta.get("langs") or []
+            form.settings["namespaces"] = (form.settings.get("namespaces", "") + ' ex="http://example.org/ex"').strip()
+            cells = {}
+            hdrs_now = [h for r_, _ in form.walk() for h in r_.cells] + [h for l_ in form.choices.values() for c_ in l_ for h in c_]
+            dl = ":" if any(":" in h and "::" not in h for h in hdrs_now) else "::"  # the sheet's own delimiter style
+            for base in rng.sample(["label", "hint", "guidance_hint", "constraint_message"], rng.randint(2, 4)) + ["label"]:
+                for lg in (rng.sample(langs, rng.randint(1, len(langs))) if langs and rng.random() < 0.7 else [None]):
+                    cells[base if lg is None else f"{base}{dl}{lg}"] = f"{base[:4]}.ns.{(lg or 'x')[:2]}"
+            if any(c.startswith("constraint_message") for c in cells):
+                cells["constraint"] = ". != 'z'"
+            form.survey.append(Row("q", "text", f"ex:nsq{i % 5}", cells))
+            ctx.ctr("prefixed_name_forms")
         fmt, spacers = "dict", 0
         if i % 6 == 4:
             fmt = rng.choice(["csv", "xlsx", "xls", "csv"])
